@@ -8,6 +8,7 @@ definition headers/docstrings/annotated assignments byte-identical; under inject
 """
 import ast
 import io
+import itertools
 import os
 import shutil
 import sys
@@ -38,6 +39,11 @@ def cases(tier, seed):
             yield dict(kind="program", key=dict(defs=[defs], layout=layout))
     for name, _src in P.ONE_LINERS:
         yield dict(kind="program", key=dict(oneliner=name))
+    # modules written by the library's own emitters
+    from mc.checks import c19
+
+    for fmt, symbol, style in itertools.product(EMITTED_FORMATS, list(c19.SYMBOLS), EMITTED_STYLES):
+        yield dict(kind="program", key=dict(emitted=[fmt, symbol, style]))
     # fault-point enumeration on a subset
     for defs in P.SUB[:10] if tier == "quick" else P.SUB:
         for cfg in (CONFIGS[0], CONFIGS[6]) if tier == "quick" else CONFIGS[::2]:
@@ -199,7 +205,35 @@ def _what(a, b, i):
     return m[-1] if m else "?"
 
 
+EMITTED_FORMATS = ["class", "function", "argparse", "pydantic", "sqlalchemy", "sqlalchemy_table"]
+EMITTED_STYLES = ["rest", "google", "numpydoc"]
+
+
+def emitted_source(fmt, symbol, style):
+    """a module as the library's own emitters write it (the input doctrans gets when it follows gen / sync / exmod)"""
+    import cdd.shared.emit.file
+    from mc import formats as F
+    from mc.checks import c19
+
+    ir = c19.symbol_ir(symbol)
+    ir["returns"] = None
+    node = F.emit_ast(fmt, ir, style, False)
+    if isinstance(node, ast.FunctionDef) and fmt == "function":
+        node.name = "fn"
+    mod = ast.Module(body=[ast.Import(names=[ast.alias(name="os", asname=None)]), node], type_ignores=[])
+    d = tempfile.mkdtemp(prefix="c07e_")
+    try:
+        p = os.path.join(d, "e.py")
+        cdd.shared.emit.file.file(mod, p, mode="wt", skip_black=False)
+        with open(p, "rt") as f:
+            return f.read()
+    finally:
+        shutil.rmtree(d, ignore_errors=True)
+
+
 def source_of(key):
+    if "emitted" in key:
+        return emitted_source(*key["emitted"])
     if "oneliner" in key:
         return P.PRELUDE + dict(P.ONE_LINERS)[key["oneliner"]] + P.POSTLUDE
     return P.apply_layout(P.render_program(key), key.get("layout", "lf"))
@@ -213,7 +247,7 @@ def run_program(key, cfgs):
     try:
         for cfg in cfgs:
             ctx = dict(check="doctrans", style=cfg["style"], type_annotations=cfg["type_annotations"], headers=header_class(key), n_defs=len(key.get("defs", [1])),
-                       layout=key.get("layout", key.get("oneliner", "lf")))
+                       layout=key.get("layout", key.get("oneliner", "emitted:" + key["emitted"][0] if "emitted" in key else "lf")))
             with open(path, "wt", newline="") as f:
                 f.write(src)
             cur = src
